@@ -8,7 +8,7 @@ View(s, op) ==
     [ bins |-> s.bins, min |-> s.min, max |-> s.max, bounds |-> s.bounds, size |-> Mid(s.bounds), psd |-> s.psd,
       err |-> s.err, consistent |-> (s.err # "" \/ GridConsistent(s)),
       m3 |-> Mom(s.psd, s.bounds, 3),
-      moments |-> IF op.op = "moments" THEN Moments(s, op.N, op.w) ELSE [none |-> TRUE] ]
+      moments |-> IF op.op = "moments" THEN Moments(s, TestN(s.bins), TestW(s.bins)) ELSE [none |-> TRUE] ]
 
 RECURSIVE Run(_, _, _)
 Run(s, ops, i) == IF i > Len(ops) \/ s.err # "" THEN <<>>
